@@ -110,6 +110,10 @@ fn shim_slice_position<'a, T, P: FnMut(&'a T) -> bool>(s: &'a [T], p: P) -> (r: 
 pub open spec fn spec_byte_is_numeric(b: u8) -> bool {
     (48u8 <= b && b <= 57u8) || b == 0xB2u8 || b == 0xB3u8 || b == 0xB9u8 || b == 0xBCu8 || b == 0xBDu8 || b == 0xBEu8
 }
+// `(b as char).is_whitespace()`: the ASCII white space plus NEL (0x85) and NBSP (0xA0) (validated by tools/native/is_numeric_table.rs)
+pub open spec fn spec_byte_is_whitespace(b: u8) -> bool { (9 <= b && b <= 13) || b == 32 || b == 0x85 || b == 0xA0 }
+#[verifier::external_body]
+fn shim_byte_is_whitespace(b: u8) -> (r: bool) ensures r == spec_byte_is_whitespace(b) { (b as char).is_whitespace() }
 #[verifier::external_body]
 fn shim_byte_is_numeric(b: u8) -> (r: bool) ensures r == spec_byte_is_numeric(b) { (b as char).is_numeric() }
 
